@@ -1041,7 +1041,13 @@ class Interp:
             if dec is not None:
                 kind = dec[0]
                 if kind == "ref":
-                    return self.call_function(dec[1], args, kwargs, force_inline=True)
+                    # bind with the TARGET's signature (its defaults), then hand the reference
+                    # function the same positional values
+                    tmp = Frame(fi, fi.module, fi.cls)
+                    self.bind_args(fi, args, kwargs, tmp)
+                    full = [tmp.locals[a.arg] for a in fi.node.args.args]
+                    nref = len(dec[1].node.args.args)
+                    return self.call_function(dec[1], full[:nref], {}, force_inline=True)
                 if kind == "custom":
                     return dec[1](self, fi, args, kwargs)
                 if kind != "inline":
